@@ -119,6 +119,9 @@ def fm_decorate(cases, rnd, ri, rs, twice_frac):
         if c.get("dst", "struct") != "struct":
             c["tp"] = {"maps": "dmaps", "mapa": "dmapa", "str": "dstr"}[c["dst"]]
             c["end"] = rnd.random() < 0.5          # the successor is END itself in half of these cases
+        if c["fam"] == "dky":
+            # the successor is a string lambda added WithInputKey("k"); the (string-typed) mapping targets that key
+            c["tp"], c["end"] = "dkey", False
     return cases
 
 
@@ -177,6 +180,8 @@ def fm_classify(case, reason, line):
                                or "mismatched type" in msg):
             # the value assembled for a field-mapped PASS-THROUGH node is not of the node's input type
             return "passthrough-input-built-as-wrong-type(pt=%s)" % case["pt"]
+        if case.get("tp") == "dkey" and "inputStreamFilter failed" in msg:
+            return "input-key-node-stream-converter"       # field mappings into a WithInputKey node: stream form built with the wrong chunk type
         if case.get("twice") and ("unexpected input type. expected: map[string]interface" in msg or "converter" in msg):
             return "second-compile"
         if "unsupported chunk type: interface {}" in msg or "chunk type mismatch. expect: map[string]interface {}, got: interface {}" in msg:
@@ -259,6 +264,7 @@ def c15(tier, repo=None):
                 ("dms", 2, ["M", "S", "AIS", "Mk"], ["all", "k"], ["nokey"], {"dkind": "maps"}),
                 ("dma", 2, ["MA", "S", "AI", "M"], ["all", "k"], [], {"dkind": "mapa"}),
                 ("dst", 1, ["S", "AIS", "BPS", "Mk"], ["all"], ["nilB", "nokey"], {"dkind": "str"}),
+                ("dky", 1, ["S", "AIS", "BPS", "Mk"], ["k"], ["nilB"], {"dkind": "mapa"}),
                 # source paths through a NON-EMPTY interface type (struct field / map element), walkable and non-walkable implementations
                 ("yi", 2, ["YIS", "YMkIS", "S"], ["S", "AIS", "Xk"], ["Yptr", "Ystr", "Ynil"], {}),
                 # a pass-through typed from START (workflow input type VfmDst != output type string) receives the field mappings
@@ -277,6 +283,7 @@ def c15(tier, repo=None):
                 ("dms", 3, ["M", "S", "AIS", "Mk"], ["all", "k"], ["nokey", "nilM"], {"dkind": "maps"}),
                 ("dma", 3, ["MA", "S", "AI", "M", "W"], ["all", "k"], [], {"dkind": "mapa"}),
                 ("dst", 1, ["S", "AIS", "BPS", "Mk"], ["all"], ["nilB", "nilBP", "nokey", "nilM"], {"dkind": "str"}),
+                ("dky", 1, ["S", "AIS", "BPS", "Mk"], ["k"], ["nilB", "nilBP"], {"dkind": "mapa"}),
                 ("yi", 3, ["YIS", "YMkIS", "S"], ["S", "AIS", "Xk"], ["Yptr", "Ystr", "Ynil"], {}),
                 ("pts", 3, ["S", "N", "AIS", "BPS", "Mk"], ["S", "N", "AIS", "AMk", "BPS", "MIkS", "Xk", "AI", "A"], [], {"kind": "dst"}),
                 ("mme", 3, ["S", "AIS", "N"], ["MMkPS", "MMkMk", "MMkIS", "MIkS", "MIkN"], [], {}),
